@@ -257,6 +257,14 @@ class Run:
                     self.bad(f"ocr/fabrication-raises/{type(e).__name__}", f"{type(e).__name__}: {e}", i)
                     continue
                 self.fabricated += 1
+                # "a stable OrderID per order": once execution reports of this order have named its OrderID, a cancel reject
+                # fabricated for the same order names the same one (before the first report the reject's OrderID is FREE)
+                roid = m.get(FTag.OrderID, None)
+                known = {str(x) for x in self.order_ids if x is not None}
+                if known and str(roid) not in known:
+                    self.bad("ocr/orderid-differs-from-reports", f"cancel reject carries OrderID {roid!r}, the order's execution reports carried {sorted(known)}", i)
+                elif known:
+                    self.acc.klass("cancel-reject-after-reports")
                 try:
                     with warnings.catch_warnings():
                         warnings.simplefilter("ignore")
